@@ -793,6 +793,13 @@ class Exec(object):
             for s1, r in (self.ev(n.value.value, st) if n.value.value is not None else [(st, ('val', NONE))]):
                 if r[0] == 'exc':
                     outs.append((s1, ('raise', r[1]))); continue
+                if s1.g.get('closed_by_consumer'):
+                    # the consumer closed this generator (GeneratorExit was delivered at an earlier yield) and the code caught it and
+                    # yields again: Python raises RuntimeError('generator ignored GeneratorExit') in close() and leaves the generator
+                    # suspended -- its pending finally blocks do not run
+                    self.obligations.append(('generator_honours_close_no_yield_after_GeneratorExit', s1.copy(), z3.BoolVal(False), ('normal',)))
+                    s1.g['ignored_close'] = True
+                    outs.append((s1, ('raise', s1.exc_obj('RuntimeError')))); continue
                 s1.g['yielded'] = s1.g.get('yielded', []) + [r[1]]
                 h = self.hook('on_yield', s1, r[1], n)
                 if h is not None:
